@@ -3,11 +3,13 @@ use lasso::{Rodeo, Spur};
 use std::cell::RefCell;
 use std::fmt::{self, Display};
 
+#[cfg(not(feature = "verif-hooks"))]
 thread_local!(static STRINGS: RefCell<Rodeo<Spur>> = RefCell::new(Rodeo::default()));
 
 #[derive(Debug, Clone, Copy, PartialEq, Eq, Hash, Ord, PartialOrd)]
 pub struct InternedString(Spur);
 
+#[cfg(not(feature = "verif-hooks"))]
 impl InternedString {
     pub fn get_or_intern<T: AsRef<str>>(s: T) -> Self {
         Self(STRINGS.with(|interner| interner.borrow_mut().get_or_intern(s)))
@@ -29,8 +31,71 @@ impl InternedString {
     }
 }
 
+#[cfg(not(feature = "verif-hooks"))]
 impl Display for InternedString {
     fn fmt(&self, f: &mut fmt::Formatter<'_>) -> fmt::Result {
         STRINGS.with(|interner| write!(f, "{}", interner.borrow().resolve(&self.0)))
+    }
+}
+
+// Verification model of the interner (cargo feature `verif-hooks`): Kani cannot compile
+// thread-locals that own a destructor, so under the feature the `Rodeo` is replaced by a
+// destructor-free, const-initialised linear-search table with the same observable
+// contract (string <-> key bijection, keys handed out in first-intern order).
+#[cfg(feature = "verif-hooks")]
+mod verif_model {
+    use super::*;
+    use lasso::Key;
+
+    pub(super) const CAP: usize = 64;
+
+    pub(super) struct VInterner {
+        pub strs: [&'static str; CAP],
+        pub len: usize,
+    }
+
+    thread_local!(pub(super) static VSTRINGS: RefCell<VInterner> = const {
+        RefCell::new(VInterner { strs: [""; CAP], len: 0 })
+    });
+
+    impl InternedString {
+        pub fn get_or_intern<T: AsRef<str>>(s: T) -> Self {
+            let s = s.as_ref();
+            VSTRINGS.with(|i| {
+                let mut i = i.borrow_mut();
+                let mut k = 0;
+                while k < i.len {
+                    if i.strs[k] == s {
+                        return Self(Spur::try_from_usize(k).unwrap());
+                    }
+                    k += 1;
+                }
+                assert!(k < CAP, "verif interner model is full");
+                let owned: &'static str = Box::leak(s.to_owned().into_boxed_str());
+                i.strs[k] = owned;
+                i.len = k + 1;
+                Self(Spur::try_from_usize(k).unwrap())
+            })
+        }
+
+        #[allow(dead_code)]
+        pub fn resolve(self) -> String {
+            self.resolve_ref().to_owned()
+        }
+
+        #[allow(dead_code)]
+        pub fn is_empty(self) -> bool {
+            self.resolve_ref() == ""
+        }
+
+        pub fn resolve_ref<'a>(self) -> &'a str {
+            VSTRINGS.with(|i| i.borrow().strs[self.0.into_usize()])
+        }
+    }
+
+    impl Display for InternedString {
+        fn fmt(&self, f: &mut fmt::Formatter<'_>) -> fmt::Result {
+            f.write_str(self.resolve_ref())
+        }
     }
 }
